@@ -59,6 +59,31 @@ Qed.
 Lemma link_tag_name : C11_Gen.tagName = "db".
 Proof. reflexivity. Qed.
 
+(* ---- sqlc.CachedConn (cachedsql.go:215-227): TransactCtx only delegates to the sqlx conn's TransactCtx -
+   no loop, no second call, no error inspection (Model.cached_transact_ctx); Transact wraps fn and
+   delegates to TransactCtx, like commonConn.Transact. A retry wrapper breaks these lemmas. ---- *)
+Lemma link_cached_transact :
+  C11_Gen.cached_transactctx_skeleton = ["cc.db.TransactCtx"; "return"] /\
+  C11_Gen.cached_transact_skeleton = ["fn"; "return"; "context.Background"; "cc.TransactCtx"; "return"] /\
+  C11_Gen.conn_transact_skeleton = ["context.Background"; "fn"; "return"; "db.TransactCtx"; "return"].
+Proof. repeat split; reflexivity. Qed.
+
+(* ---- stmt.go plumbing (Model.stmt_result): guard := newGuard; start (early return only on a format
+   error); the driver call; guard.finish(ctx, err) - a statement, not a value; return. The nil guard's
+   finish is empty, its start returns nil; newGuard tests the two log switches. ---- *)
+Definition guarded (drv_call : string) : list string :=
+  ["newGuard"; "guard.start"; "return"; drv_call; "guard.finish"; "return"].
+Lemma link_stmt_plumbing :
+  C11_Gen.stmt_exec_skeleton = guarded "conn.ExecContext" /\
+  C11_Gen.stmt_execstmt_skeleton = guarded "conn.ExecContext" /\
+  C11_Gen.stmt_query_skeleton = (guarded "conn.QueryContext" ++ ["defer:rows.Close"; "scanner"; "return"])%list /\
+  C11_Gen.stmt_querystmt_skeleton = (guarded "conn.QueryContext" ++ ["defer:rows.Close"; "scanner"; "return"])%list /\
+  C11_Gen.nilguard_finish_skeleton = [] /\
+  C11_Gen.nilguard_start_skeleton = ["return"] /\
+  C11_Gen.newguard_skeleton = ["logSQL.True"; "logSlowSQL.True"; "return"; "return"] /\
+  C11_Gen.tx_execctx_skeleton = ["startSpan"; "defer:func"; "{"; "endSpan"; "}"; "exec"; "return"].
+Proof. repeat split; reflexivity. Qed.
+
 (* ---- the query entry points: which `strict` literal each XxxCtx method hands to unmarshalRow(s)
    (arguments of that call, regenerated), and which Ctx form each plain form delegates to.
    A flipped flag, a swapped unmarshalRow/unmarshalRows or a wrong delegation breaks these lemmas. ---- *)
@@ -107,9 +132,13 @@ Lemma link_plain_forms :
 Proof. repeat split; reflexivity. Qed.
 
 (* ---- soundness of the executable checkers used by Exec.v ---- *)
+Lemma fkind_eqb_eq : forall a b, fkind_eqb a b = true <-> a = b.
+Proof. destruct a, b; simpl; split; intro H; try discriminate; reflexivity. Qed.
+
 Lemma err_eqb_eq : forall a b, err_eqb a b = true <-> a = b.
 Proof.
   induction a; destruct b; simpl; split; intro H; try discriminate; try reflexivity;
+    try (apply fkind_eqb_eq in H; congruence); try (inversion H; subst; apply fkind_eqb_eq; reflexivity);
     try (apply Nat.eqb_eq in H; congruence); try (inversion H; subst; apply Nat.eqb_refl).
   - apply andb_true_iff in H as [H1 H2]. apply IHa1 in H1. apply IHa2 in H2. congruence.
   - inversion H; subst. apply andb_true_iff. split; [apply IHa1|apply IHa2]; reflexivity.
@@ -135,21 +164,31 @@ Proof.
 Qed.
 
 (* an observation the model reproduces satisfies the property checker (transactions): a model/observation
-   agreement on every case therefore transfers c11_tx_refines_spec to the observed behaviour *)
-Lemma model_ok_tx_implies_spec_ok f b r cs : model_ok (CTx f b r cs None) = true -> spec_ok (CTx f b r cs None) = true.
+   agreement on every case therefore transfers c11_tx_refines_spec to the observed behaviour - through
+   either wrapper and under every switch setting *)
+Lemma option_err_eqb_eq (a b : option err) : option_eqb err_eqb a b = true -> a = b.
+Proof. destruct a, b; simpl; intro H; try discriminate; [apply err_eqb_eq in H; congruence|reflexivity]. Qed.
+
+Lemma model_ok_tx_implies_spec_ok cached sw f b r cs runs seen :
+  model_ok (CTx cached sw f b r cs None runs seen) = true -> spec_ok (CTx cached sw f b r cs None runs seen) = true.
 Proof.
-  unfold model_ok, spec_ok, transact_ctx. pose proof (tx_refines f b) as HR.
-  destruct (transact f b) as [r0 cs0]. simpl in HR. intro H.
+  unfold model_ok, spec_ok.
+  assert (Hw : (if cached then cached_transact_ctx sw true f b else transact_ctx sw true f b) = transact sw f b)
+    by (destruct cached; reflexivity).
+  assert (Hr : (if cached then cached_transact_ctx_runs true f else transact_ctx_runs true f) = transact_runs f)
+    by (destruct cached; reflexivity).
+  rewrite Hw, Hr. pose proof (tx_refines sw f b) as HR.
+  destruct (transact sw f b) as [r0 cs0]. simpl in HR. intro H.
+  apply andb_true_iff in H as [H Hseen]. apply andb_true_iff in H as [H Hruns].
   apply andb_true_iff in H as [H _]. apply andb_true_iff in H as [H1 H2].
-  assert (r0 = r).
-  { destruct r0, r; simpl in H1; try discriminate; [apply err_eqb_eq in H1; congruence|reflexivity]. }
-  apply (list_eqb_eq call_eqb call_eqb_eq) in H2. subst. exact HR.
+  apply option_err_eqb_eq in H1. apply (list_eqb_eq call_eqb call_eqb_eq) in H2. apply Nat.eqb_eq in Hruns.
+  subst. rewrite HR. exact Hseen.
 Qed.
 
 (* a query observed inside Transact that the model reproduces satisfies the transaction clause of spec_ok *)
-Lemma model_ok_orm_tx_implies_tx_clause via m sh cols rows st ds r cs :
-  model_ok (COrm via m sh cols rows st ds (Some (r, cs, false))) = true ->
-  tx_allowed no_faults (body_of_query st) r cs None = true.
+Lemma model_ok_orm_tx_implies_tx_clause via m sh cols rows st ds r cs runs :
+  model_ok (COrm via m sh cols rows st ds (Some (r, cs, false, runs))) = true ->
+  tx_allowed no_faults (body_of_query st) r cs None runs = true.
 Proof.
   unfold model_ok. destruct (run_query (rows_mode m) (strict_flag (recv_of via) m) sh cols rows) as [ds0 st0].
   intro H. apply andb_true_iff in H as [H Ht]. apply andb_true_iff in H as [Hs _].
@@ -157,10 +196,9 @@ Proof.
   { destruct st0 as [[]|n|], st as [[]|n'|]; simpl in Hs; try discriminate; try reflexivity.
     apply Nat.eqb_eq in Hs. subst. reflexivity. }
   destruct (in_tx via); [|discriminate]. unfold transact_ctx in Ht. rewrite Hb in Ht.
-  pose proof (tx_refines no_faults (body_of_query st)) as HR.
-  destruct (transact no_faults (body_of_query st)) as [r0 cs0]. simpl in HR.
-  apply andb_true_iff in Ht as [Ht _]. apply andb_true_iff in Ht as [H1 H2].
-  assert (r0 = r).
-  { destruct r0, r; simpl in H1; try discriminate; [apply err_eqb_eq in H1; congruence|reflexivity]. }
-  apply (list_eqb_eq call_eqb call_eqb_eq) in H2. subst. exact HR.
+  pose proof (tx_refines default_switches no_faults (body_of_query st)) as HR.
+  destruct (transact default_switches no_faults (body_of_query st)) as [r0 cs0]. simpl in HR.
+  apply andb_true_iff in Ht as [Ht Hruns]. apply andb_true_iff in Ht as [Ht _]. apply andb_true_iff in Ht as [H1 H2].
+  apply option_err_eqb_eq in H1. apply (list_eqb_eq call_eqb call_eqb_eq) in H2. apply Nat.eqb_eq in Hruns.
+  subst. exact HR.
 Qed.
